@@ -1,8 +1,9 @@
 /-
   Line handlers for C13.
     gen | compile … | sample …             → "ok ok" / "same same"  (the property demands success)
-    cell <fty> <rules> <probe> | <chain>   → "<denote> <documented>"  verdict of the emitted chain under
-                                              the primitive-schema semantics, and the documented verdict
+    cell <fty> <rules> <probe> | <chain>   → "<denote> <documented>"  verdict of the chain `GenSem.emitCell` builds from the
+                                              cell's INPUT under `GenSem.denoteChain` (`?` = not judged), and the documented verdict
+    term … / tconv …                       → termination (`C13.c13_term`) and the RESULT of the live conversion (`GenTerm.convV`)
     quote <kind> <runes p> | <runes ref>   → noparse | lit=<runes>   value of the literal the transcribed
                                               formatting function emits for parameter p
 -/
@@ -11,8 +12,8 @@ import Gozod.Model.GenSplit
 import Gozod.Model.GenEmit
 import Gozod.Model.GenTyped
 import Gozod.Gen.MethodTable
-import Gozod.Gen.WriterFacts
 import Gozod.Model.GenTerm
+import Gozod.Model.GenSem
 namespace Gozod.Drv.C13
 open Gozod Gozod.Tags Gozod.GenChain
 
@@ -49,36 +50,11 @@ def specRefuses (tag : List Nat) : Option String :=
     else if (TagParser.trimSpace name).isEmpty then some "err:name"
     else none
 
-def isIdent (cs : List Char) : Bool :=
-  match cs with
-  | [] => false
-  | c :: _ => (c.isAlpha || c == '_') && cs.all fun d => d.isAlphanum || d == '_'
+def parseTy (s : String) : Option GenEmit.Ty := GenEmit.parseTy s
 
-/-- the field type as the harness writes it (`getTypeNameFromAST` syntax: `*T`, `[]T`, `map[K]V` with a bracket-free key,
-    basic names, `time.Time`, identifiers) -/
-def parseTyF : Nat → List Char → Option GenEmit.Ty
-  | 0, _ => none
-  | f + 1, cs =>
-    match cs with
-    | '*' :: r => (parseTyF f r).map .ptr
-    | '[' :: ']' :: r => (parseTyF f r).map .slice
-    | 'm' :: 'a' :: 'p' :: '[' :: r =>
-      let k := r.takeWhile (· != ']')
-      let v := (r.dropWhile (· != ']')).drop 1
-      match parseTyF f k, parseTyF f v with
-      | some k, some v => some (.map k v)
-      | _, _ => none
-    | _ =>
-      let s := String.ofList cs
-      if s == "time.Time" then some .time
-      else match GenEmit.Basic.all.find? (·.name == s) with
-        | some b => some (.basic b)
-        | none => if isIdent cs then some (.named (GenEmit.asc s)) else none
-
-def parseTy (s : String) : Option GenEmit.Ty := parseTyF (s.length + 1) s.toList
-
-/-- the writer of the tree under check: structure facts regenerated from writer.go on every run -/
-def WF : GenEmit.WriterFacts := Gen.writerFacts
+/-- PINNED: the writer of /repo HEAD (all twelve decisions in the landed variant). What go/ast finds in the tree
+    (`Gen.writerFacts`) is an expectation proved equal to it (`C13.c13_writer_pinned`), never a selector. -/
+def WF : GenEmit.WriterFacts := .head
 
 /-- predicted status of the file written for a one-field struct: the expression is well typed against the regenerated
     method table and every import written is used; with the reason when it is not (`GenTyped.whyChain`) -/
@@ -169,38 +145,41 @@ def handle : List String → String
     match parseRunes tag with
     | some tag => GenSplit.parseReason tag
     | none => "bad-op"
-  | ["term", fields, "|", env, "|", "ifs=2"] =>
-    -- the `case *types.Named:` clause carries a second `if` in front of the recursion (the stack check of
-    -- pending/C13-recursive-named.diff): GenTerm.convV, total by construction
+  | ["term", fields, "|", env] =>
+    -- "gozodgen terminates normally": `C13.c13_term` — for EVERY program the live conversion (`convS`, the transcription
+    -- with the stack of named types) returns; there is no input on which the model predicts anything else
     match parseProg fields env with
-    | some p => (if p.fields.all (fun t => GenTerm.convV p.env (List.range p.env.length) t == GenTerm.convV p.env (List.range p.env.length) t) then "ok" else "crash") ++ " ok"
+    | some _ => "ok ok"
     | none => "bad-op"
-  | ["term", fields, "|", env, "|", "ifs=1"] =>
-    -- model: the conversion as written, with fuel 2000 — far beyond what any terminating case of the generator needs (a Go stack of 1 GB holds far fewer frames than that would need
-    -- on a diverging case: the run ends in `fatal error: stack overflow`); spec: gozodgen terminates normally
+  | ["tconv", fields, "|", env] =>
+    -- the RESULT of the live conversion for every converted field (`GenTerm.analyzeV` = `convV`; by `c13_term` this is what
+    -- `convS` returns): a named type met again on the way down has become `any`. Compared with the reflect.Type the real
+    -- analyzer built (model-vs-implementation: the spec column is filled in by vlib/c13.py)
     match parseProg fields env with
-    | some p => (if GenTerm.analyzeF p 2000 then "ok" else "crash") ++ " ok"
+    | some p => "types=" ++ ";".intercalate ((GenTerm.analyzeV p).map GenTerm.RT.render)
     | none => "bad-op"
   | ["mname", names] =>
-    -- model: the keys the analyzer of the tree under check writes (Gen.analyzerMultiName), the file type-checks iff they are
+    -- model: the keys the analyzer of /repo HEAD writes (0bbda6e: every name its own key — pinned), the file type-checks iff they are
     -- distinct; spec: one key per name, the name itself (what FromStruct uses), the file type-checks
     let ns := names.splitOn ","
-    let ks := (GenEmit.fieldKeys Gen.analyzerMultiName (ns.map GenEmit.asc)).map fun k => String.ofList (k.map Char.ofNat)
+    let ks := (GenEmit.fieldKeys true (ns.map GenEmit.asc)).map fun k => String.ofList (k.map Char.ofNat)
     "keys=" ++ ",".intercalate ks ++ " st=" ++ (if ks.eraseDups.length == ks.length then "ok" else "notypecheck") ++ "\t" ++ "keys=" ++ names ++ " st=ok"
   | ["bfile", kind] =>
     let k : GenEmit.SrcKind := if kind == "plain" || kind == "second-file" then .plain else if kind == "test-file" then .testFile else .constrained
-    (if GenEmit.packageStillBuilds Gen.analyzerSkipTestFiles k then "ok" else "nobuild") ++ "\tok"
+    (if GenEmit.packageStillBuilds true k then "ok" else "nobuild") ++ "\tok"
+  | ["regen", _] => "same same"      -- a second run over its own output writes the same files (the writer is a function of the source)
   | ["gen"] => "ok ok"
   | ["compile", _, _] => "ok ok"
   | ["sample", _, _] => "same same"
-  | ["cell", fty, rules, probe, "|", chain] =>
+  | ["cell", fty, rules, probe, "|", _chain] =>
+    -- from the INPUT of the cell: the chain the writer model emits (its text = the file's text: texpr op of the same cell,
+    -- theorem c13_gen_is_emit), judged by the partial semantics; `?` = some call / constructor / argument is not known
     match FTy.ofString? fty, parseRules rules, Probe.ofString? probe with
     | some t, some rs, some p =>
-      match chain.splitOn ";" with
-      | ctor :: calls =>
-        let c : GenCell := ⟨t, rs, .ok, Ctor.ofString? ctor, calls.map Call.ofString?⟩
-        s!"{b2s (denote c p)} {b2s (Spec.accept rs p)}"
-      | [] => "bad-op"
+      let d := match GenSem.emitCell t rs with
+        | some ch => (match GenSem.denoteChain ch p with | some b => b2s b | none => "?")
+        | none => "?"
+      s!"{d} {b2s (Spec.accept rs p)}"
     | _, _, _ => "bad-op"
   | ["quote", kind, p, "|", _ref] =>
     match parseRunes p with
